@@ -37,7 +37,7 @@ fn check(ctx: &Ctx, forms: &[mwv_core::sx::Sx], features: &std::collections::BTr
     })
 }
 
-fn case(ctx: &Ctx, bytes: &[u8]) -> Outcome {
+pub fn case(ctx: &Ctx, bytes: &[u8]) -> Outcome {
     let s = gen_session(bytes, &cfg());
     check(ctx, &s.forms, &s.features)
 }
@@ -45,6 +45,9 @@ fn case(ctx: &Ctx, bytes: &[u8]) -> Outcome {
 impl Prop for C05 {
     fn id(&self) -> &'static str {
         "C05"
+    }
+    fn fuzz_stage(&self) -> Option<(&'static str, u64, usize)> {
+        Some(("program_cc", 20_000, 1536))
     }
     fn rule(&self) -> &'static str {
         "sessions from the typed program generator with call/cc productions (escape, normal return, storing k in a global, counter-guarded re-entry 0-3 times from the same form, procedures, loops, for-each callbacks and later top-level forms), each run in the reference interpreter and three VMs. Non-trivial: in the reference run a continuation is re-entered after its call/cc returned with at least one already-evaluated operand pending at capture, or is invoked from a later top-level form; distinct by program text."
